@@ -125,6 +125,7 @@ macro_rules! ensure {
 // panic capture
 
 thread_local! {
+    static IN_GUARD: std::cell::Cell<u32> = const { std::cell::Cell::new(0) };
     static LAST_PANIC: RefCell<Option<String>> = const { RefCell::new(None) };
     static PANIC_COUNT: std::cell::Cell<u64> = const { std::cell::Cell::new(0) };
 }
@@ -144,7 +145,8 @@ pub fn install_panic_hook() {
             .map(|l| format!("{}:{}", l.file(), l.line()))
             .unwrap_or_else(|| "?".into());
         let text = format!("{msg} at {loc}");
-        if verbose {
+        // panics outside a guarded region are harness bugs: never swallow them silently
+        if verbose || IN_GUARD.with(|g| g.get()) == 0 {
             eprintln!("[panic] {text}");
         }
         LAST_PANIC.with(|p| *p.borrow_mut() = Some(text));
@@ -163,7 +165,10 @@ pub fn last_panic() -> Option<String> {
 
 /// Run `f`, turning a panic into `Err(message at location)`.
 pub fn catch<T>(f: impl FnOnce() -> T) -> Result<T, String> {
-    match panic::catch_unwind(AssertUnwindSafe(f)) {
+    IN_GUARD.with(|g| g.set(g.get() + 1));
+    let res = panic::catch_unwind(AssertUnwindSafe(f));
+    IN_GUARD.with(|g| g.set(g.get() - 1));
+    match res {
         Ok(v) => Ok(v),
         Err(_) => Err(last_panic().unwrap_or_else(|| "panic".into())),
     }
@@ -795,6 +800,21 @@ pub fn run_property(prop: &Property, cfg: &Cfg) -> i32 {
         "wall_s": (t0.elapsed().as_secs_f64() * 1000.0).round() / 1000.0,
         "violations": violations.len(),
     });
+    let mut evidence = evidence;
+    if let Some(path) = std::env::var_os("VERIF_CHRONO_EVIDENCE") {
+        if let Ok(text) = std::fs::read_to_string(&path) {
+            if let Ok(v) = serde_json::from_str::<Value>(&text) {
+                evidence["coverage"]["chrono_build"] = json!({
+                    "note": "the same check built with mpd_client's chrono feature, run just before this one",
+                    "evaluations": v["coverage"]["evaluations"],
+                    "executions": v["coverage"]["executions"],
+                    "distinct_nontrivial": v["coverage"]["distinct_nontrivial"],
+                    "violations": v["violations"],
+                    "wall_s": v["wall_s"],
+                });
+            }
+        }
+    }
     let evdir = verif_root().join("evidence");
     let _ = std::fs::create_dir_all(&evdir);
     let suffix = if cfg!(feature = "chrono") { ".chrono" } else { "" };
